@@ -2,7 +2,7 @@
 C05(a): Σ farmers' stakes = pool total, preserved by every operation — including block ends
 whose refunds fail half-way (no hypothesis on budgets or ledgers is needed).
 -/
-import Irismod.Proofs.FarmInvert
+import Irismod.Proofs.FarmCpFrame
 
 namespace Irismod.Proofs.Farm
 open Irismod Irismod.Sdk Irismod.Farm Irismod.Spec
@@ -28,6 +28,9 @@ theorem Stakes.of_same {s s' : State} (h : SameStakes s s') (hs : Stakes s) : St
   exact hs.sum id
 
 theorem BankOnly.sameStakes {s s' : State} (h : BankOnly s s') : SameStakes s s' :=
+  ⟨h.farmers, fun id => by unfold C05.lockedOf getPool; rw [h.pools]⟩
+
+theorem Quiet.sameStakes {s s' : State} (h : Quiet s s') : SameStakes s s' :=
   ⟨h.farmers, fun id => by unfold C05.lockedOf getPool; rw [h.pools]⟩
 
 /-- replacing pool `id` by a record with the same total changes no stake bookkeeping -/
@@ -85,7 +88,8 @@ theorem refund_sameStakes {s : State} {id : PoolId} {p : Pool} (hp : getPool s i
     · split
       · exact ((dequeue_sameStakes s id p.endH).trans h1).trans h2
       · rename_i s2 hs2
-        exact (((dequeue_sameStakes s id p.endH).trans h1).trans h2).trans (sendAll_ok hs2).1.sameStakes
+        exact ((((dequeue_sameStakes s id p.endH).trans h1).trans h2).trans (sendAll_ok hs2).1.sameStakes).trans
+          (cpFrame_withCp _ _).quiet.sameStakes
 
 theorem endBlockOne_sameStakes {s s' : State} {id : PoolId} (h : endBlockOne s id = .ok s') : SameStakes s s' := by
   unfold endBlockOne at h
@@ -124,6 +128,27 @@ theorem endBlocks_sameStakes : ∀ (n : Nat) (s : State), SameStakes s (endBlock
 
 /-! ### the messages -/
 
+/-- a pool created under a fresh id with no stake -/
+theorem stakes_createCore {s2 s' : State} {id creator desc lpt start rpb total editable}
+    (hs2 : Stakes s2) (h : createPoolCore s2 id creator desc lpt start rpb total editable = .ok s') : Stakes s' := by
+  obtain ⟨m, hnone, _, rfl⟩ := createPoolCore_ok h
+  apply Stakes.of_same (enqueue_sameStakes _ _ _)
+  refine ⟨?_, hs2.nodup⟩
+  intro id2
+  have hsum := hs2.sum id2
+  by_cases e : id = id2
+  · subst e
+    have : C05.lockedOf s2 id = 0 := by unfold C05.lockedOf; rw [hnone]; rfl
+    rw [this] at hsum
+    show C05.stakedSum s2 id = _
+    rw [hsum]
+    unfold C05.lockedOf getPool
+    simp [AMap.get?_set_self]
+  · show C05.stakedSum s2 id2 = _
+    rw [hsum]
+    unfold C05.lockedOf getPool
+    simp [AMap.get?_set_other _ _ _ _ e]
+
 theorem stakes_createPool {s s' : State} {id sender desc lpt start rpb total editable}
     (hs : Stakes s) (h : stepCreatePool s id sender desc lpt start rpb total editable = .ok s') : Stakes s' := by
   obtain ⟨s1, s2, m, _, _, _, _, _, h1, h2, hnone, _, rfl⟩ := stepCreatePool_ok h
@@ -145,6 +170,16 @@ theorem stakes_createPool {s s' : State} {id sender desc lpt start rpb total edi
     rw [hsum]
     unfold C05.lockedOf getPool
     simp [AMap.get?_set_other _ _ _ _ e]
+
+/-- a community-pool operation moves no stake -/
+theorem stakes_qEffect {s s' : State} (hs : Stakes s) (h : QEffect s s') : Stakes s' := by
+  cases h with
+  | frame f => exact Stakes.of_same f.sameStakes hs
+  | created sa s2 c f1 hd f2 =>
+    obtain ⟨_, _, _, s1, h1, h2⟩ := hd
+    have hsa := Stakes.of_same f1.sameStakes hs
+    have hs1 := Stakes.of_same (sendAll_ok h1).1.sameStakes hsa
+    exact Stakes.of_same f2.sameStakes (stakes_createCore hs1 h2)
 
 theorem stakes_destroyPool {s s' : State} {sender id} (hs : Stakes s) (h : stepDestroyPool s sender id = .ok s') :
     Stakes s' := by
@@ -293,11 +328,22 @@ theorem stakes_stepMsg {s s' : State} {op : Op} (hs : Stakes s) (h : stepMsg s o
   | unstake sender id denom amt => exact stakes_unstake hs h
   | harvest sender id => exact stakes_harvest hs h
   | endBlocks n => simp [stepMsg] at h; subst h; exact hs
+  | cpPass pid => simp [stepMsg] at h; subst h; exact hs
+  | cpReject pid => simp [stepMsg] at h; subst h; exact hs
+  | cpFailDeposit pid => simp [stepMsg] at h; subst h; exact hs
+  | cpSubmit proposer title c deposit => exact Stakes.of_same (cpSubmit_quiet h).sameStakes hs
+  | fundCp sender amt => exact Stakes.of_same (fundCp_quiet h).sameStakes hs
+
+/-- gov's EndBlocker on one proposal moves no stake (no hypothesis on the proposers needed: only
+the bank and the community-pool tables are written besides the pool a passed proposal creates) -/
+theorem stakes_govStep {s s' : State} (hs : Stakes s) (h : GovStep s s') : Stakes s' :=
+  stakes_qEffect hs (govStep_q h)
 
 theorem stakes_apply (s : State) (op : Op) (hs : Stakes s) : Stakes (apply s op) := by
-  rcases apply_cases s op with ⟨n, _, h⟩ | h | ⟨h, _, _⟩
+  rcases apply_cases s op with ⟨n, _, h⟩ | h | ⟨h, _, _⟩ | h
   · rw [h]; exact Stakes.of_same (endBlocks_sameStakes n s) hs
   · rw [h]; exact hs
   · exact stakes_stepMsg hs h
+  · exact stakes_govStep hs h
 
 end Irismod.Proofs.Farm
